@@ -10,3 +10,4 @@ CONSTANTS
  Dns <- TrDns
  MaxFinish = 0
  Defects = {}
+ MaxFail = 0
